@@ -255,6 +255,47 @@ def gen_impossible(rng, max_ops=60):
     return _assemble(wb, sb, pb, ms, kind, ws, ops)
 
 
+def _sweep_case(P, cum, p, lo, hi):
+    total = 1 << P
+    t = []
+    if cum > 0:
+        t.append((100, 0, cum))
+    t.append((7, cum, p))
+    if cum + p < total:
+        t.append((200, cum + p, total - cum - p))
+    return _assemble(8, 16, 8, [(P, t)], 0, [], [17, 0, lo, hi])
+
+
+def sweep_all(maxP=4, block=4096):
+    """EXHAUSTIVE single-step space of the smallest instance (u8 words, u16 state): every state
+    0..65535 (with the bulk the documented invariant requires), every (cum, p) with
+    PRECISION <= maxP: encode then decode."""
+    cases = []
+    for P in range(1, maxP + 1):
+        total = 1 << P
+        for cum in range(total):
+            for p in range(1, total - cum + 1):
+                if p == total:
+                    continue
+                for lo in range(0, 65536, block):
+                    cases.append(_sweep_case(P, cum, p, lo, lo + block))
+    return cases
+
+
+def gen_sweep(rng):
+    P = rng.randint(1, 8)
+    total = 1 << P
+    cum = rng.randrange(total)
+    p = rng.randint(1, total - cum)
+    if p == total:
+        p -= 1
+    lo = rng.choice([0, 128, 256 - 64, 65536 - 192, rng.randrange(0, 65536 - 192)])
+    return _sweep_case(P, cum, max(p, 1), lo, lo + 192)
+
+
+EXHAUSTIVE = {"gen_sweep": lambda: sweep_all(4, 4096)}
+
+
 # ---------------------------------------------------------------- output walking
 
 def walk(inp, out):
@@ -315,6 +356,8 @@ def walk(inp, out):
         elif op == 13:
             k = inp[i + 2]
             yield (13, (inp[i + 1], k), out[o:o + k]); i += 3; o += k
+        elif op == 17:
+            yield (17, inp[i + 1:i + 4], out[o]); i += 4; o += 1
         elif op == 15:
             k = inp[i + 1]
             yield (15, inp[i + 2:i + 2 + k], (out[o:o + k], out[o + k:o + 2 * k])); i += 2 + k; o += 2 * k
@@ -738,6 +781,8 @@ def op_slices(inp):
             n = 3
         elif op == 15:
             n = 2 + inp[i + 1]
+        elif op == 17:
+            n = 4
         else:
             break
         sl.append((i, i + n))
